@@ -10,13 +10,17 @@ CONSTANTS Tier, EMIT
 \* ---- layouts (DESIGN.md appendix B): reference is 20 s long ------------------
 RefV == [ts |-> 4, mediaDur |-> 80, segDur |-> 16]
 RefR == [ts |-> 2, mediaDur |-> 40, segDur |-> 8]
+\* a reference whose duration (61/3 s) is not a whole number of microseconds
+RefN == [ts |-> 3, mediaDur |-> 61, segDur |-> 12]
 Layouts == [
   V  |-> [rep |-> [ts |-> 4,  durs |-> <<16, 16, 16, 16, 16>>, sn |-> 1, segdur |-> 16, st |-> 0], ref |-> RefV],
   A  |-> [rep |-> [ts |-> 10, durs |-> <<39, 41, 39, 41, 39>>, sn |-> 1, segdur |-> 39, st |-> 0], ref |-> RefV],
   A2 |-> [rep |-> [ts |-> 10, durs |-> <<41, 40, 40, 40, 40>>, sn |-> 1, segdur |-> 40, st |-> 0], ref |-> RefV],
   T  |-> [rep |-> [ts |-> 1,  durs |-> <<10, 10>>,             sn |-> 1, segdur |-> 10, st |-> 0], ref |-> RefV],
   V5 |-> [rep |-> [ts |-> 4,  durs |-> <<16, 16, 16, 16, 16>>, sn |-> 5, segdur |-> 16, st |-> 0], ref |-> RefV],
-  R  |-> [rep |-> [ts |-> 2,  durs |-> <<7, 9, 8, 8, 8>>,      sn |-> 1, segdur |-> 8,  st |-> 0], ref |-> RefR] ]
+  R  |-> [rep |-> [ts |-> 2,  durs |-> <<7, 9, 8, 8, 8>>,      sn |-> 1, segdur |-> 8,  st |-> 0], ref |-> RefR],
+  N  |-> [rep |-> [ts |-> 3,  durs |-> <<12, 12, 12, 12, 13>>, sn |-> 1, segdur |-> 12, st |-> 0], ref |-> RefN],
+  NA |-> [rep |-> [ts |-> 7,  durs |-> <<28, 29, 28, 29, 28>>, sn |-> 1, segdur |-> 28, st |-> 0], ref |-> RefN] ]
 LayoutNames == DOMAIN Layouts
 
 Depths   == IF Tier = "quick" THEN {5, 30} ELSE {0, 5, 12, 30}
